@@ -71,6 +71,8 @@ type Opts struct {
 	MaintenanceToken string
 	Extra            []string
 	APIScheme        string // http (default) | https
+	ReplScheme       string // leader: http (default) | https
+	ConfigYAML       string // written to <process dir>/config.yaml (regatta reads ./config.* through viper) - for settings that have no flag
 }
 
 // Start launches a process and waits until its API answers.
@@ -125,12 +127,21 @@ func start(bin string, o Opts) (*Proc, error) {
 		args = append(args, "--maintenance.token="+o.MaintenanceToken)
 	}
 	if o.Role == "leader" {
-		args = append(args, fmt.Sprintf("--replication.address=http://127.0.0.1:%d", repl))
+		rs := o.ReplScheme
+		if rs == "" {
+			rs = "http"
+		}
+		args = append(args, fmt.Sprintf("--replication.address=%s://127.0.0.1:%d", rs, repl))
 	} else {
 		args = append(args, "--replication.leader-address=http://"+o.LeaderRepl,
 			"--replication.poll-interval=20ms", "--replication.lease-interval=50ms", "--replication.reconcile-interval=100ms")
 	}
 	args = append(args, o.Extra...)
+	if o.ConfigYAML != "" {
+		if err := os.WriteFile(filepath.Join(dir, "config.yaml"), []byte(o.ConfigYAML), 0o600); err != nil {
+			return nil, err
+		}
+	}
 	cmd := exec.Command(bin, args...)
 	cmd.Dir = dir
 	cmd.Env = append(os.Environ(), "TMPDIR="+dir)
